@@ -13,18 +13,20 @@ structure S where
   grpP : PCfg := { isClient := false }
   sw : Switches := { hasProfile := true, profOn := true, devOn := true }
   mode : Option Mode := some .nullIP
-  ttl : Int := 10
+  ttl : Int := 10000000000
   now : Int := 0
   zones : List (String × Zone) := []
   srvMode : Mode := .nullIP
   srvTtl : Nat := 10
   ups : List ((Host × QType) × Msg) := []
 
-/-- `agdnet.NormalizeDomain`: lower case, no trailing dot. -/
-def host! (s : String) : Host :=
-  if s == "-" || s == "" then [] else
-    let t := s.toLower
-    ((if t.endsWith "." then (t.dropEnd 1).toString else t)).splitOn "."
+/-- The labels of a name in its wire spelling (letter case kept; the text may end in the root dot). -/
+def labels (s : String) : Host :=
+  if s == "-" || s == "" || s == "." then [] else
+    ((if s.endsWith "." then (s.dropEnd 1).toString else s)).splitOn "."
+
+/-- `agdnet.NormalizeDomain`: the model's case folding of the labels. -/
+def host! (s : String) : Host := normName (labels s)
 def showHost (h : Host) : String := if h.isEmpty then "-" else ".".intercalate h
 def csv (s : String) : List String := if s == "-" || s == "" then [] else s.splitOn ","
 
@@ -62,7 +64,7 @@ def showRR (r : RR) : String :=
 def showMsg (m : Msg) : String :=
   let a := if m.ans.isEmpty then "-" else ",".intercalate (m.ans.map showRR)
   let soa := match m.soa with | some t => toString t | none => "-"
-  s!"{m.rcode} {a} {soa} {m.upNs}"
+  s!"{m.rcode} {a} {soa} {m.upNs} {m.upExtra}"
 
 /-- A verdict as text; a safety filter's synthesised answer is shown as the message it stands for
 under the message constructor `(m, ttl)` of the request. -/
@@ -73,6 +75,17 @@ def showV (m : Mode) (ttl : Nat) (host : Host) (qt : QType) : Verdict → String
   | .modReq l t => s!"modreq {showId l} {showHost t}"
   | .modResp l rc vals => s!"modresp {showId l} {rc} {if vals.isEmpty then "-" else ",".intercalate vals}"
   | .hashResp l v4 ip => s!"modmsg {showId l} {showMsg (hashRespMsg m ttl host qt v4 ip)}"
+
+/-- What a debug answer reports: stage, state, list. -/
+def showReported (r : Bool × Verdict) : String :=
+  let stage := if r.1 then "req" else "resp"
+  match r.2 with
+  | .none => s!"{stage} normal -"
+  | .allowed l => s!"{stage} allowed {showId l}"
+  | .blocked l => s!"{stage} blocked {showId l}"
+  | .modReq l _ => s!"{stage} modified {showId l}"
+  | .modResp l _ _ => s!"{stage} modified {showId l}"
+  | .hashResp l _ _ => s!"{stage} modified {showId l}"
 
 def lookupList (s : S) (name : String) : List Rule := (s.lists.lookup name).getD []
 
@@ -178,17 +191,22 @@ def isIPText (s : String) : Option (Bool × String) :=
 def parseRRs (name : Host) (s : String) : List RR :=
   (csv s).filterMap fun tok =>
     match tok.splitOn "/" with
+    | ["5", v, ttl] =>
+      -- a CNAME: shown lower-case (as the harness renders it), filtered by its wire spelling
+      some { name := name, typ := 5, val := showHost (host! v), ttl := nat! ttl, up := true, target := labels v }
     | [t, v, ttl] => some { name := name, typ := nat! t, val := v, ttl := nat! ttl, up := true }
     | [t, v, ttl, hints] =>
       some { name := name, typ := nat! t, val := v, ttl := nat! ttl, up := true, hints := (semi hints).map host! }
     | _ => none
 
+/-- The answer records of a `resp` line, read the way the code reads them (`ansOf`): the target of a
+CNAME comes in its wire spelling. -/
 def parseAns (s : String) : List Ans :=
   (csv s).map fun tok =>
     match tok.splitOn "/" with
     | ["1", v] => .a (host! v)
     | ["28", v] => .aaaa (host! v)
-    | ["5", v] => .cname (host! v)
+    | ["5", v] => ansOf { name := [], typ := 5, val := "", ttl := 0, up := true, target := labels v }
     | ["65", hints] => .https ((semi hints).map host!)
     | _ => .other
 
@@ -220,14 +238,17 @@ def step (s : S) : List String → S × String
         sbOn := bool! sbOn, dangerousOn := bool! dang, nrdOn := bool! nr }
     (if w == "p" then { s with profP := c } else { s with grpP := c }, "ok")
   | ["sw", a, b, c] => ({ s with sw := { hasProfile := bool! a, profOn := bool! b, devOn := bool! c } }, "ok")
-  | ["mode", m, ttl, v4, v6] => ({ s with mode := parseModeOpt m v4 v6, ttl := int! ttl }, "ok")
+  | ["mode", m, ttl, v4, v6] =>
+    -- the TTL is a duration in milliseconds (may be negative)
+    ({ s with mode := parseModeOpt m v4 v6, ttl := int! ttl * 1000000 }, "ok")
   | ["now", t] => ({ s with now := int! t }, "ok")
   | ["zone", name, base, periods] =>
     ({ s with zones := (name, { periods := parsePeriods periods, base := int! base }) :: s.zones.filter (·.1 != name) }, "ok")
-  | ["srv", m, ttl, v4, v6] => ({ s with srvMode := parseMode m v4 v6, srvTtl := nat! ttl }, "ok")
-  | ["up", h, qt, rc, rrs, ns] =>
+  | ["srv", m, ttl, v4, v6] =>
+    ({ s with srvMode := parseMode m v4 v6, srvTtl := durSecs (int! ttl * 1000000) }, "ok")
+  | ["up", h, qt, rc, rrs, ns, ex] =>
     let k := (host! h, nat! qt)
-    let m : Msg := { rcode := nat! rc, ans := parseRRs (host! h) rrs, soa := none, upNs := nat! ns }
+    let m : Msg := { rcode := nat! rc, ans := parseRRs (host! h) rrs, soa := none, upNs := nat! ns, upExtra := nat! ex }
     ({ s with ups := (k, m) :: s.ups.filter (·.1 != k) }, "ok")
   | ["req", w, h, qt] =>
     let (c, m, t) := pick s w
@@ -245,6 +266,13 @@ def step (s : S) : List String → S × String
       if e.sw.hasProfile then (cfgVariants e.prof (host! h)).map fun c' => { e with prof := c' }
       else (cfgVariants e.grp (host! h)).map fun c' => { e with grp := c' }
     (s, showAlts (envs.map fun e' => showMsg (serve e' (host! h) (nat! qt))))
+  | ["dbg", h, qt] =>
+    let e := envOf (serverOf s) (whoOf s) (upstreamOf s)
+    let envs : List Env :=
+      if e.sw.hasProfile then (cfgVariants e.prof (host! h)).map fun c' => { e with prof := c' }
+      else (cfgVariants e.grp (host! h)).map fun c' => { e with grp := c' }
+    (s, showAlts (envs.map fun e' =>
+      showMsg (serveDebug e' (host! h) (nat! qt)) ++ " | " ++ showReported (reportedVerdict e' (host! h) (nat! qt))))
   | _ => (s, "bad-op")
 
 def main : IO Unit := loop step {}
